@@ -1,84 +1,81 @@
 (* C05 -- A call always runs the function its callee currently denotes.
    Property theorems only; proofs live in Proofs/CallCacheProofs.v.
 
-   The model (Model/CallCache.v) is of the code that exists.  On it the unconditional
-   statement "every Call in every history enters what globals[idx] denotes" is FALSE: the three
-   `_refuted` theorems give the histories (each reproduced on the real toolchain, see
-   corpus/C05 and notes/C05.md).  The strongest true statement is the first theorem, under the
-   decidable guard [hist_ok]:
-     - slot ids are injective over the live slot-using call sites in every state of the history;
-     - a name that denotes a native is not rebound, and a site emitted as CallGlobalNative is
-       only executed while its name denotes a native (opcode 104 never re-resolves);
-     - Alloc uses a free heap index; Collect frees no object bound to a global (C03). *)
+   The model (Model/CallCache.v) is of the code as repaired by
+     ba4e0b3  every cache entry records the callee it was built from; the CallGlobalMono fast path
+              only uses an entry that belongs to the callee cached at the site and whose global
+              still denotes it (so sharing a slot id -- REPL inputs restart at 0, saving zeroes
+              them -- is harmless);
+     539f843  a CallGlobalNative site whose global no longer denotes the cached native rewrites
+              itself to CallGlobal and is dispatched again.
+   Before the repairs the statement below was false (three `_refuted` theorems, each reproduced
+   on the real toolchain: corpus/C05); those histories are now regression cases of the tie and of
+   [former_counterexamples_now_agree].
+
+   [env_ok] puts no restriction on what a program or session does (definitions, rebindings between
+   functions / closures / natives / non-callables, any sites with any slot ids, new units at any
+   slot base, retiring, save/reload).  It only says what the environment provides: slot ids fit the
+   cache table (the VM rejects larger ones), an allocation uses a free heap index, a collection
+   frees nothing that is bound to a global (C03). *)
 From Aelys Require Import Base.Tactics Extracted.CallCacheConsts Model.CallCache Proofs.CallCacheProofs.
 Local Open Scope N_scope.
 
-(* every Call of every history (definitions, rebindings, new units, retired code, save/reload,
-   collections, over any number of sites) enters exactly the function / native its callee
-   denotes at that moment, whenever the history is inside the guard *)
-Theorem call_runs_current_under_unique_slots : forall h : list event,
-  hist_ok init h = true ->
+(* every Call of every history enters exactly the function / native its callee denotes at that
+   moment *)
+Theorem call_runs_current : forall h : list event,
+  env_ok init h = true ->
   Forall2 agree (run step init h) (run spec_step init h).
 Proof. exact run_agrees_from_init. Qed.
 
-(* the same from any VM state whose cache and patched sites satisfy the invariant *)
+(* the same from any VM state whose cache entries are sound *)
 Theorem call_runs_current_from_any_state : forall h st sp,
-  cache_inv st -> view_rel st sp -> spec_sites_ok sp -> hist_ok sp h = true ->
+  cache_inv st -> view_rel st sp -> env_ok sp h = true ->
   Forall2 agree (run step st h) (run spec_step sp h).
 Proof. exact run_agrees. Qed.
 
-(* set_global / set_global_by_index invalidate soundly: in ANY state (no invariant needed), right
-   after a global is written every 77/78 site resolves its callee afresh *)
+(* set_global / set_global_by_index invalidate soundly: in ANY state (no invariant), right after a
+   global is written a call through any site -- 77, 78 or 104 -- enters what the name denotes *)
 Theorem invalidate_on_set_sound : forall st idx v sid s,
   let st' := fst (step st (SetGlobal idx v)) in
-  site_at st' sid = Some s -> uses_cache s -> s_slot s < MAX_CALL_SITE_SLOTS ->
+  site_at st' sid = Some s -> s_slot s < MAX_CALL_SITE_SLOTS ->
   agree (snd (call st' sid)) (spec_call st' sid).
 Proof. exact invalidate_on_set. Qed.
 
-(* REPL: every input is compiled with slot ids starting at 0 (driver/src/api/repl.rs).  The
-   session `fn ha.. fn hb..` | `fn a(){ha()}` | `fn b(){hb()}` | `a()` | `b()` | `a()` makes the
-   last call inside a enter a itself (ORan 12 10: a's code under ha's identity) instead of ha *)
-Theorem repl_slot_collision_refuted :
-  exists h : list event,
-    (forall st, repl_slot_base st = 0) /\
-    ~ Forall2 agree (run step init h) (run spec_step init h) /\
-    nth_error (run step init h) 21 = Some (ORan 12 10) /\
-    nth_error (run spec_step init h) 21 = Some (ORan 10 10).
-Proof. exact repl_slot_collision_refuted_lemma. Qed.
+(* REPL inputs still restart their slot ids at 0 (driver/src/api/repl.rs); it no longer matters *)
+Theorem repl_units_restart_slot_ids : forall st, repl_slot_base st = 0.
+Proof. exact repl_base_zero. Qed.
 
-(* a unit that is inside the guard as compiled leaves it when it goes through
-   serialize/deserialize (all slot ids become 0) *)
-Theorem reload_zeroed_slots_refuted :
-  exists (unit calls : list event) (sids : list N),
-    hist_ok init (unit ++ calls) = true /\
-    ~ Forall2 agree (run step init (unit ++ SaveReload sids :: calls))
-                    (run spec_step init (unit ++ SaveReload sids :: calls)).
-Proof. exact reload_zeroed_slots_refuted_lemma. Qed.
+(* the three histories that used to refute the property (REPL slot collision, slot ids zeroed by
+   save/reload, a CallGlobalNative site after its name was rebound to another native, to a user
+   function, and the rebinding of a compiler-known native name) are inside [env_ok] and every call
+   in them now enters the specified callee *)
+Example former_counterexamples_now_agree :
+  env_ok init repl_history = true /\ env_ok init reload_history = true /\ env_ok init native_history = true /\
+  all_agree (run step init repl_history) (run spec_step init repl_history) = true /\
+  all_agree (run step init reload_history) (run spec_step init reload_history) = true /\
+  all_agree (run step init native_history) (run spec_step init native_history) = true /\
+  nth_error (run step init repl_history) 21 = Some (ORan 10 10) /\
+  nth_error (run step init native_history) 16 = Some (ORan 13 13) /\
+  nth_error (run step init native_history) 18 = Some (ORan 13 13).
+Proof. exact former_counterexamples_agree. Qed.
 
-(* with injective slot ids: a site patched to CallGlobalNative keeps calling the native after its
-   name is rebound *)
-Theorem native_rebind_stale_refuted :
-  exists h : list event,
-    unique_slots (final spec_step init h) = true /\
-    ~ Forall2 agree (run step init h) (run spec_step init h).
-Proof. exact native_rebind_stale_refuted_lemma. Qed.
-
-(* the guard is satisfiable by a non-trivial history (rebinding function -> closure -> native,
-   two sites, a collection freeing the old callee, a second unit at a fresh slot base, reuse of
-   a retired site's slot), and this is what the model does on it *)
-Example guard_satisfiable :
-  hist_ok init guarded_history = true /\
-  run step init guarded_history =
+(* the hypothesis is satisfiable by a non-trivial history (function -> closure -> native -> function
+   rebinding, a collection that frees the old callee whose heap index is then reused, units loaded
+   at slot base 0 again and again, a retired site), and this is what the model does on it *)
+Example env_ok_satisfiable :
+  env_ok init mixed_history = true /\
+  run step init mixed_history =
     [ONone; ONone; ONone; ORan 10 10; ORan 10 10; ORan 10 10; ONone; ONone;
      ORan 11 11; ORan 11 11; ORan 11 11; ONone; ORan 11 11; ONone; ORan 11 11; ONone;
-     ONone; ORan 11 11; ONone; ONone; ONative 58; ONative 58].
-Proof. exact guarded_history_facts. Qed.
+     ONone; ORan 11 11; ONone; ONone; ONative 58; ONative 58; ONone; ONone;
+     ORan 10 10; ORan 10 10; ORan 10 10].
+Proof. exact mixed_history_facts. Qed.
 
-(* the model's prediction for the reproduced sessions is what the real toolchain prints *)
+(* the model's prediction for the reproduced sessions (corpus/C05) is what the toolchain now
+   prints: the specification's tag sequences *)
 Example witnesses_as_observed :
   session_obs repl_session =
-    [[0; 0]; [0; 0]; [0; 0]; [0; 2; 22; 20]; [0; 2; 23; 21];
-     2 :: 1023 :: repeat 22 24] /\
+    [[0; 0]; [0; 0]; [0; 0]; [0; 2; 22; 20]; [0; 2; 23; 21]; [0; 2; 22; 20]] /\
   session_obs (program_session false) = [[0; 6; 22; 20; 23; 21; 22; 20]] /\
-  session_obs (program_session true) = [2 :: 1027 :: [22; 20; 23; 21] ++ repeat 22 20].
+  session_obs (program_session true) = [[0; 6; 22; 20; 23; 21; 22; 20]].
 Proof. exact witness_predictions. Qed.
